@@ -388,9 +388,16 @@ def run_validator(acc, P, job, names):
             rules[n] = m[x % M]
             x //= M
         for variant in ('file', 'missing', 'partial-registration',
-                        'unparseable', 'subset', 'no-registration'):
+                        'unparseable', 'subset', 'no-registration',
+                        'defaults-carry'):
             file_rules = dict(rules)
             registered = list(names)
+            bodies = {n: '@' for n in names}
+            if variant == 'defaults-carry':
+                # the rule bodies are the service's registered DEFAULTS; the
+                # operator's file overrides the first name only, harmlessly
+                bodies = dict(rules)
+                file_rules = {names[0]: '@'}
             missing = variant == 'missing'
             if variant == 'partial-registration':
                 registered = list(names[1:])
@@ -414,7 +421,7 @@ def run_validator(acc, P, job, names):
                      default_config_files=[], default_config_dirs=[])
                 try:
                     enf = P.Enforcer(conf)
-                    enf.register_defaults([P.RuleDefault(n, '@')
+                    enf.register_defaults([P.RuleDefault(n, bodies[n])
                                            for n in registered])
                     orig = generator._get_enforcer
                     generator._get_enforcer = lambda ns: enf
@@ -431,7 +438,7 @@ def run_validator(acc, P, job, names):
                     conf.reset()
                     conf.clear()
                     core.quiet_logging()
-                effective = {n: '@' for n in registered}
+                effective = {n: bodies[n] for n in registered}
                 effective.update(file_rules)
                 if variant == 'unparseable':
                     effective[names[0]] = '!'
